@@ -5,6 +5,7 @@
 
 use crate::map::IdHashSet;
 use crate::passes::used::Used;
+use crate::{ConstExpr, ElementItems, ElementKind, ExportItem, FunctionId, GlobalKind};
 use crate::{ImportKind, Module};
 use id_arena::Id;
 
@@ -48,6 +49,49 @@ pub fn run(m: &mut Module) {
     }
     for id in unused(&used.funcs, m.funcs.iter().map(|t| t.id())) {
         m.funcs.delete(id);
+    }
+
+    declare_ref_func_targets(m, &used);
+}
+
+/// A function that code refers to with `ref.func` must be declared outside of
+/// function bodies: exported, or mentioned in an element segment or a global
+/// initializer. The element segment that did so in the input may just have been
+/// removed as unused, so declare such functions in a fresh declared segment.
+fn declare_ref_func_targets(m: &mut Module, used: &Used) {
+    let mut declared = IdHashSet::default();
+    for export in m.exports.iter() {
+        if let ExportItem::Function(f) = export.item {
+            declared.insert(f);
+        }
+    }
+    for element in m.elements.iter() {
+        match &element.items {
+            ElementItems::Functions(funcs) => declared.extend(funcs.iter().cloned()),
+            ElementItems::Expressions(_, exprs) => {
+                declared.extend(exprs.iter().filter_map(|e| match e {
+                    ConstExpr::RefFunc(f) => Some(*f),
+                    _ => None,
+                }))
+            }
+        }
+    }
+    for global in m.globals.iter() {
+        if let GlobalKind::Local(ConstExpr::RefFunc(f)) = global.kind {
+            declared.insert(f);
+        }
+    }
+
+    let mut undeclared: Vec<FunctionId> = used
+        .ref_funcs
+        .iter()
+        .filter(|f| !declared.contains(f))
+        .cloned()
+        .collect();
+    if !undeclared.is_empty() {
+        undeclared.sort();
+        m.elements
+            .add(ElementKind::Declared, ElementItems::Functions(undeclared));
     }
 }
 
